@@ -34,11 +34,11 @@ Section Sound.
 
   Definition sinv (M : list (Z * B)) (sd : sdict) : Prop :=
     forall l d t u, In (l, (d, t, u)) sd ->
-      u <> [] /\ exists salt p b, d = DHash salt l p /\ In (t, b) M /\ backend b l p = u.
+      u <> [] /\ exists salt p b, d = cache_digest l p salt /\ In (t, b) M /\ backend b l p = u.
 
   Definition finv (M : list (Z * B)) (fd : fdict) : Prop :=
     forall k t l, In (k, (t, l)) fd ->
-      exists p b, k = DKey l (c_salt cfg) l p /\ In (t, b) M /\ backend b l p = [].
+      exists p b, k = failed_key (c_salt cfg) l p /\ In (t, b) M /\ backend b l p = [].
 
   Definition cinv (M : list (Z * B)) (c : cache) : Prop :=
     NoDup (map fst (succ c)) /\ NoDup (map fst (failed c)) /\ sinv M (succ c) /\ finv M (failed c).
@@ -72,10 +72,10 @@ Section Sound.
   Qed.
 
   Lemma backend_part_fix : forall M b now sd fd l pw dg fc,
-    let kf := DKey l (c_salt cfg) l pw in
+    let kf := failed_key (c_salt cfg) l pw in
     NoDup (map fst sd) -> NoDup (map fst fd) -> sinv M sd -> finv M fd -> In (now, b) M ->
     dget dval_eqb fd kf = None ->
-    (dg = DEmpty \/ exists s, dg = DHash s l pw) ->
+    (dg = DEmpty \/ exists s, dg = cache_digest l pw s) ->
     let r := backend_part cfg (backend b) now sd fd l pw kf dg [] fc in
     cinv M (r_cache r) /\ r_out r = ORet (backend b l pw) fc /\ r_called r = true.
   Proof.
@@ -116,7 +116,7 @@ Section Sound.
   Proof.
     intros M b now sd fd l D pw N1 N2 Hs Hf Hm Hlive r. subst r.
     unfold after_sweep. cbn [fix2 fix3 Vfix].
-    set (kf := DKey l (c_salt cfg) l pw).
+    set (kf := failed_key (c_salt cfg) l pw).
     destruct (dget dval_eqb fd kf) as [[t l']|] eqn:Ef.
     - (* found in the failed cache *)
       split; [split4; assumption|].
@@ -124,10 +124,11 @@ Section Sound.
       split; [congruence|]. split; [|split; [discriminate|reflexivity]].
       intros _. right. apply (dget_In dval_eqb dval_eqb_eq) in Ef.
       destruct (Hf _ _ _ Ef) as (p & b' & Ek & Hin & Hb).
-      unfold kf in Ek. inversion Ek; subst. exists t, b'. split; [exact Hin|]. split; [|exact Hb].
+      unfold kf in Ek. apply failed_key_inj in Ek as [El Ep]. subst l' p.
+      exists t, b'. split; [exact Hin|]. split; [|exact Hb].
       eapply Hlive. exact Ef.
     - destruct (dget eqs sd l) as [[[dc tc] uc]|] eqn:Es.
-      + destruct (dval_eqb (DHash tc l pw) dc) eqn:Ed.
+      + destruct (dval_eqb (cache_digest l pw tc) dc) eqn:Ed.
         * apply dval_eqb_eq in Ed. subst dc.
           destruct (age_s now tc >? c_exp_s cfg) eqn:Ea.
           -- (* matching but expired: entry deleted, back-end asked *)
@@ -138,17 +139,17 @@ Section Sound.
           -- (* matching and fresh: answered from the cache *)
              apply (dget_In eqs eqs_eq) in Es.
              destruct (Hs _ _ _ _ Es) as [Hu (salt & p & b' & Ed & Hin & Hb)].
-             inversion Ed; subst.
+             apply cache_digest_same_login in Ed as [Et Ep]. subst salt p. subst uc.
              unfold backend_part. rewrite (proj2 (nonempty_true _) Hu).
              split; [split4; assumption|].
-             exists (backend b' l p), true. cbn [r_out r_called]. split; [reflexivity|].
+             exists (backend b' l pw), true. cbn [r_out r_called]. split; [reflexivity|].
              split; [|split; [congruence|split; [discriminate|reflexivity]]].
-             intros _. right. exists salt, b'. split; [exact Hin|]. split; [|reflexivity].
+             intros _. right. exists tc, b'. split; [exact Hin|]. split; [|reflexivity].
              rewrite Z.gtb_ltb in Ea. apply Z.ltb_ge in Ea. exact Ea.
         * (* login known, other password *)
-          destruct (backend_part_fix M b now sd fd l pw (DHash tc l pw) false) as (C & O & Cl); eauto.
+          destruct (backend_part_fix M b now sd fd l pw (cache_digest l pw tc) false) as (C & O & Cl); eauto.
           split; [exact C|]. eapply good_of_called; eassumption.
-      + destruct (backend_part_fix M b now sd fd l pw (DHash now l pw) false) as (C & O & Cl); eauto.
+      + destruct (backend_part_fix M b now sd fd l pw (cache_digest l pw now) false) as (C & O & Cl); eauto.
         split; [exact C|]. eapply good_of_called; eassumption.
   Qed.
 
